@@ -2,5 +2,5 @@
 # Re-record obligations.lock.json (the obligations discharged on the reference tree) for every property with contracts.
 cd "$(dirname "$0")/.."
 for i in $(seq -w 1 20); do
-  ./check C$i --update-baseline --no-b 2>&1 | grep -v "^WARNING" | grep "baseline" || true
+  ./check C$i --update-baseline --no-b 2>&1 | grep -v "^WARNING" | grep -i "baseline" || true
 done
